@@ -8,7 +8,7 @@ use async_std::io::{prelude::SeekExt, Cursor, Read, Seek, SeekFrom, Write};
 use async_std::sync::{Arc, RwLock};
 use async_trait::async_trait;
 use futures::task::{Context, Poll};
-use futures::{Stream, StreamExt};
+use futures::Stream;
 use std::collections::hash_map::Entry;
 use std::collections::HashMap;
 use std::fmt;
@@ -37,15 +37,52 @@ impl AsyncMemoryFS {
         }
     }
 
-    async fn ensure_has_parent(&self, path: &str) -> VfsResult<()> {
-        let separator = path.rfind('/');
-        if let Some(index) = separator {
-            if self.exists(&path[..index]).await? {
-                return Ok(());
+}
+
+/// Checks, while the caller holds the lock, that the parent of `path` is an existing directory
+fn ensure_has_parent(files: &HashMap<String, AsyncMemoryFile>, path: &str) -> VfsResult<()> {
+    if let Some(index) = path.rfind('/') {
+        match files.get(&path[..index]) {
+            Some(parent) if parent.file_type == VfsFileType::Directory => return Ok(()),
+            Some(_) => {
+                return Err(VfsErrorKind::Other("Parent path is not a directory".into()).into())
             }
+            None => {}
         }
-        Err(VfsErrorKind::Other("Parent path does not exist".into()).into())
     }
+    Err(VfsErrorKind::Other("Parent path does not exist".into()).into())
+}
+
+/// Lists the names of the entries of directory `path`, while the caller holds the lock
+fn list_dir(files: &HashMap<String, AsyncMemoryFile>, path: &str) -> VfsResult<Vec<String>> {
+    let prefix = format!("{}/", path);
+    let mut found_directory = false;
+    let mut found_file = false;
+    let entries: Vec<String> = files
+        .iter()
+        .filter_map(|(candidate_path, candidate)| {
+            if candidate_path == path {
+                match candidate.file_type {
+                    VfsFileType::Directory => found_directory = true,
+                    VfsFileType::File => found_file = true,
+                }
+            }
+            if candidate_path.starts_with(&prefix) {
+                let rest = &candidate_path[prefix.len()..];
+                if !rest.contains('/') {
+                    return Some(rest.to_string());
+                }
+            }
+            None
+        })
+        .collect();
+    if found_file {
+        return Err(VfsErrorKind::Other("Not a directory".into()).into());
+    }
+    if !found_directory {
+        return Err(VfsErrorKind::FileNotFound.into());
+    }
+    Ok(entries)
 }
 
 impl Default for AsyncMemoryFS {
@@ -166,42 +203,14 @@ impl AsyncFileSystem for AsyncMemoryFS {
         &self,
         path: &str,
     ) -> VfsResult<Box<dyn Unpin + Stream<Item = String> + Send>> {
-        let prefix = format!("{}/", path);
         let handle = self.handle.read().await;
-        let mut found_directory = false;
-        let mut found_file = false;
-        #[allow(clippy::needless_collect)] // need collect to satisfy lifetime requirements
-        let entries: Vec<String> = handle
-            .files
-            .iter()
-            .filter_map(|(candidate_path, candidate)| {
-                if candidate_path == path {
-                    match candidate.file_type {
-                        VfsFileType::Directory => found_directory = true,
-                        VfsFileType::File => found_file = true,
-                    }
-                }
-                if candidate_path.starts_with(&prefix) {
-                    let rest = &candidate_path[prefix.len()..];
-                    if !rest.contains('/') {
-                        return Some(rest.to_string());
-                    }
-                }
-                None
-            })
-            .collect();
-        if found_file {
-            return Err(VfsErrorKind::Other("Not a directory".into()).into());
-        }
-        if !found_directory {
-            return Err(VfsErrorKind::FileNotFound.into());
-        }
+        let entries = list_dir(&handle.files, path)?;
         Ok(Box::new(futures::stream::iter(entries)))
     }
 
     async fn create_dir(&self, path: &str) -> VfsResult<()> {
-        self.ensure_has_parent(path).await?;
         let map = &mut self.handle.write().await.files;
+        ensure_has_parent(map, path)?;
         let entry = map.entry(path.to_string());
         match entry {
             Entry::Occupied(file) => {
@@ -234,9 +243,9 @@ impl AsyncFileSystem for AsyncMemoryFS {
     }
 
     async fn create_file(&self, path: &str) -> VfsResult<Box<dyn Write + Send + Unpin>> {
-        self.ensure_has_parent(path).await?;
         let content = Arc::new(Vec::<u8>::new());
         let mut handle = self.handle.write().await;
+        ensure_has_parent(&handle.files, path)?;
         if let Some(existing) = handle.files.get(path) {
             ensure_file(existing)?;
         }
@@ -295,10 +304,10 @@ impl AsyncFileSystem for AsyncMemoryFS {
     }
 
     async fn remove_dir(&self, path: &str) -> VfsResult<()> {
-        if self.read_dir(path).await?.next().await.is_some() {
+        let mut handle = self.handle.write().await;
+        if !list_dir(&handle.files, path)?.is_empty() {
             return Err(VfsErrorKind::Other("Directory to remove is not empty".into()).into());
         }
-        let mut handle = self.handle.write().await;
         handle
             .files
             .remove(path)
